@@ -500,6 +500,8 @@ class Engine:
                 raise Inconclusive('REAL mode: integer bits reinterpreted as floating point')
             if isinstance(v, Fraction) or (z3.is_expr(v) and not isinstance(v, IntV)):
                 if isinstance(v, Fraction) and v == 0: return 0
+                if bits in (32, 64):
+                    return v      # a float copied through an integer register (struct copy): stays a real, may only be stored or cast back
                 raise Inconclusive('REAL mode: floating point reinterpreted as integer bits')
         return v
 
@@ -697,6 +699,8 @@ class Engine:
             return z3.If(c, zbool(a), zbool(b))
         if tk in ('float', 'double'):
             return s.A.fselect(st, c, a, b, tk)
+        if s.A.real and any(isinstance(x, Fraction) or (z3.is_expr(x) and not isinstance(x, z3.BoolRef)) for x in (a, b)):
+            return s.A.fselect(st, c, a, b, 'double')       # reals travelling in integer registers
         return s.A.ite(st, c, a, b, bits)
 
     def store_symbolic(s, st, p, ob, sz, v):
@@ -755,10 +759,17 @@ class Engine:
             # symbolic address: word-wise through the symbolic-offset load/store path
             chunk = 8 if n % 8 == 0 else 4 if n % 4 == 0 else 1
             if s.A.real:
-                # INT/REAL mode: only word-wise copies out of a symbolic-size buffer (values stay untyped until used)
-                if do is None or chunk == 1 or isinstance(sob.size, int):
+                # INT/REAL mode: word-wise copies; the word size follows the cells of the source (values stay untyped
+                # until used: a real copied through an integer word remains a real)
+                if do is None or chunk == 1:
                     raise Inconclusive(f'{what} with a symbolic address in INT/REAL mode')
-                chunk = 4 if n % 4 == 0 else chunk
+                if isinstance(sob.size, int) and sob.cells:
+                    cs = min(c[0] for c in sob.cells.values())
+                    if cs not in (4, 8) or n % cs:
+                        raise Inconclusive(f'{what} with a symbolic address in INT/REAL mode (cell size {cs})')
+                    chunk = cs
+                else:
+                    chunk = 4 if n % 4 == 0 else chunk
             ity = Ty('int', 8 * chunk)
             vals = [s.load(st, s.padd(st, src, i), ity, stack) for i in range(0, n, chunk)]
             for k, i in enumerate(range(0, n, chunk)):
